@@ -30,6 +30,7 @@ func main() {
 	verif := flag.String("verif", "/verif", "verification directory (evidence, known findings)")
 	arch := flag.String("arch", "", "GOARCH to analyse (default amd64; thorough adds 386)")
 	dump := flag.String("dump", "", "debug: dump SSA of function (substring match)")
+	interp := flag.String("interp", "", "debug: run the layout interpreter on a function (substring match) and print its paths")
 	shownorm := flag.String("shownorm", "", "debug: write the helper-inlined files into this directory and print the normalisation log")
 	flag.Parse()
 	if *shownorm != "" {
@@ -50,6 +51,29 @@ func main() {
 	}
 	seed, _ := strconv.ParseInt(os.Getenv("VERIF_SEED"), 10, 64)
 
+	if *interp != "" {
+		p, err := LoadProgram(*repo, *arch)
+		if err != nil {
+			fmt.Println(err)
+			os.Exit(2)
+		}
+		for _, fn := range p.AllFuncs {
+			if strings.Contains(fn.String(), *interp) && fn.Blocks != nil {
+				fmt.Println("==", fn.String())
+				for _, pp := range runEncoder(p, fn) {
+					fmt.Println("  path:", pathLabel(pp), " env:", pp.env.String())
+					fmt.Println("    ret:", dumpAV(pp.ret, pp, 0))
+					for _, n := range pp.notes {
+						fmt.Println("    note:", n)
+					}
+					for _, n := range pp.effect {
+						fmt.Println("    effect:", n)
+					}
+				}
+			}
+		}
+		return
+	}
 	if *dump != "" {
 		p, err := LoadProgram(*repo, *arch)
 		if err != nil {
